@@ -52,13 +52,16 @@ def descStr : Desc → String
 def fdsStr (x : FdState) : String :=
   s!"open={if x.openNow.isEmpty then "." else ",".intercalate (x.openNow.map descStr)} bad={b01 x.bad}"
 
+def modeStr : Mode → String
+  | .threaded => "threaded" | .local => "local" | .remote => "remote"
+
 def runStr (s0 : St) (r : RunRes) : String :=
   let obs := runObs s0 (r.loop.calls.map (fun t => (true, t)))
   let tr := transcript r
   let sh := match r.shut with
     | none => "shut=-"
     | some x => s!"shut={feStr x.flushEnd}"
-  " | ".intercalate (s!"init {stStr s0}" :: obs) ++
+  modeStr r.mode ++ " " ++ " | ".intercalate (s!"init {stStr s0}" :: obs) ++
     s!" || end={endStr r.loop.stop} calls={r.loop.calls.length} {sh} closed={b01 tr.closed} rel={b01 tr.upstreamReleased} toC={digest tr.toClient} toU={digest tr.toUpstream} frC={digest tr.fromClient} frU={digest tr.fromUpstream} lost={digest tr.lost} fds={b01 tr.fdsReleased}"
 
 def drv (args : List String) : String :=
